@@ -68,7 +68,11 @@ M("cp_unsorted_mask", "pinned defect: sorted indices filtered with an unsorted m
 M("cp_floor_1e30", "pinned defect: curvature floor 1e-30 (reverse of fix d4f4a94)", ["C08"],
   ("lbfgsb/cauchy.py", "    eps_f_sec = np.finfo(float).eps\n", "    eps_f_sec = 1e-30\n"))
 M("cp_tie_mask", "tied breakpoint reset (reverse of fix 1674fa2); equivalent mutant since the tie-test fix fc4f49b: the search no longer stops in the middle of a tie", [],
-  ("lbfgsb/cauchy.py", "    x_cp[d != 0] = (x + t_old * d)[d != 0]\n", "    x_cp[t >= t_cur] = (x + t_old * d)[t >= t_cur]\n"))
+  ("lbfgsb/cauchy.py", "    x_cp[d != 0] = np.clip(x + t_old * d, lb, ub)[d != 0]\n", "    x_cp[t >= t_cur] = np.clip(x + t_old * d, lb, ub)[t >= t_cur]\n"))
+M("cp_no_final_clip", "final move of the Cauchy point not clipped (reverse of fix 51d3a30)", ["C08"],
+  ("lbfgsb/cauchy.py", "    x_cp[d != 0] = np.clip(x + t_old * d, lb, ub)[d != 0]\n", "    x_cp[d != 0] = (x + t_old * d)[d != 0]\n"))
+M("ufd_initial_no_filter", "no curvature filter after the initial update_fun_def call of a restart (reverse of fix 86a15fe)", ["C13"],
+  ("lbfgsb/main.py", "        if len(X) > 1:\n            # the restored gradients may have been rewritten: as in the main loop,\n            # the updated G must satisfy the strong wolfe condition\n            X, G = make_X_and_G_respect_strong_wolfe(X, G, eps_SY, logger=logger)\n", ""))
 M("cp_d_not_zeroed_on_bound", "d = -grad also for variables held at a bound", ["C08"],
   ("lbfgsb/cauchy.py", "    d = np.where(t == 0, 0.0, -grad)\n", "    d = -grad\n"))
 M("cp_no_d_reset", "d[ibp] = 0 omitted after fixing a variable", ["C08"],
